@@ -295,7 +295,7 @@ def pair_equal(rec, rng, cid):
         # different routes: attributes that cannot influence a fit (stderr,
         # correl, init_value, brute_step, user_data) differ
         route = ["assign-vs-set", "fit-result-vs-fresh", "brute-step",
-                 "user-data"][int(rng.integers(4))]
+                 "user-data", "insertion-order"][int(rng.integers(5))]
         kind = "params-route/" + route
         pa = gen.nanite_params(spec["model"])
         pb = gen.nanite_params(spec["model"])
@@ -313,6 +313,20 @@ def pair_equal(rec, rng, cid):
             for k in pa:
                 pb[k].set(value=pa[k].value, min=pa[k].min, max=pa[k].max,
                           vary=pa[k].vary)
+        elif route == "insertion-order":
+            # the same parameters added in another order (dictionary
+            # insertion order is a representation detail)
+            import lmfit
+            pa["E"].value = v
+            pa["contact_point"].value = c
+            pb = lmfit.Parameters()
+            names = list(pa)
+            order = [names[i] for i in rng.permutation(len(names))]
+            if order == names:
+                order = names[::-1]
+            for n in order:
+                pb.add(n, value=pa[n].value, min=pa[n].min, max=pa[n].max,
+                       vary=pa[n].vary)
         elif route == "brute-step":
             pa["E"].value = pb["E"].value = v
             pa["E"].brute_step = 10.0
